@@ -1,8 +1,239 @@
-(* C11 -- invariants and lemmas about model/ReqRes.v *)
+(* C11 -- lemmas about model/ReqRes.v, part 1: the channel-state word, queues, reference
+   counts, and the function-level facts about PendingResponse::receive (request-id filter,
+   release of the discarded responses) and about rejected calls. *)
 From V Require Import model.Base model.ReqRes.
-From Coq Require Import ZifyBool ZifyNat ZifyN.
+From Coq Require Import ZifyBool ZifyNat ZifyN Permutation.
 Open Scope N_scope.
 
-(* ---- the channel-state word (zero_copy_connection/mod.rs) ---- *)
+(* ---------------------------------------------------------------------------------------- *)
+(* the channel-state word (zero_copy_connection/mod.rs)                                      *)
 Lemma cas_spec : forall cur e n, cas cur e n = if N.eqb cur e then (n, true) else (cur, false).
 Proof. reflexivity. Qed.
+
+Lemma bit63_small : forall r, r < 2 ^ 63 -> N.testbit r 63 = false.
+Proof.
+  intros r Hlt. destruct (N.eq_dec r 0) as [-> | Hr0]; [reflexivity|].
+  apply N.bits_above_log2. apply N.log2_lt_pow2; [lia|exact Hlt].
+Qed.
+Lemma land_hint_small : forall r, r < 2 ^ 63 -> N.land r HINT_BIT = 0.
+Proof.
+  intros r Hlt. change HINT_BIT with (2 ^ 63). apply N.bits_inj_0; intro n. rewrite N.land_spec.
+  destruct (N.eq_dec n 63) as [-> | Hn].
+  - rewrite bit63_small by exact Hlt. reflexivity.
+  - rewrite N.pow2_bits_false by (intro; apply Hn; congruence). apply Bool.andb_false_r.
+Qed.
+Lemma rid_lt63 : forall r, r < RID_MAX + 1 -> r < 2 ^ 63.
+Proof. intros r Hr. unfold RID_MAX in Hr. change (2 ^ 63) with 9223372036854775808. lia. Qed.
+
+Lemma lor_hint_small : forall r, r < RID_MAX + 1 -> N.lor r HINT_BIT = r + HINT_BIT.
+Proof.
+  intros r Hr. pose proof (land_hint_small r (rid_lt63 r Hr)) as H0.
+  rewrite (N.add_nocarry_lxor _ _ H0). symmetry. apply N.lxor_lor. exact H0.
+Qed.
+
+Lemma ldiff_hint_small : forall r, r < RID_MAX + 1 -> N.ldiff r HINT_BIT = r.
+Proof.
+  intros r Hr. pose proof (rid_lt63 r Hr) as Hlt.
+  change HINT_BIT with (2 ^ 63).
+  apply N.bits_inj; intro n. rewrite N.ldiff_spec.
+  destruct (N.eq_dec n 63) as [-> | Hn].
+  - rewrite N.pow2_bits_true. rewrite bit63_small by exact Hlt. reflexivity.
+  - rewrite N.pow2_bits_false by (intro; apply Hn; congruence). cbn [negb]. apply Bool.andb_true_r.
+Qed.
+
+Lemma ldiff_hint_hinted : forall r, r < RID_MAX + 1 -> N.ldiff (r + HINT_BIT) HINT_BIT = r.
+Proof.
+  intros r Hr.
+  rewrite <- (lor_hint_small r Hr).
+  apply N.bits_inj; intro n. rewrite N.ldiff_spec, N.lor_spec.
+  rewrite <- (ldiff_hint_small r Hr) at 2. rewrite N.ldiff_spec.
+  destruct (N.testbit r n), (N.testbit HINT_BIT n); reflexivity.
+Qed.
+
+(* the four kinds of values a response channel can hold *)
+Definition rid_ok (r : N) : Prop := r < RID_MAX.
+
+Lemma closed_not_rid : forall r, rid_ok r -> ch_has_state CH_CLOSED r = false.
+Proof.
+  intros r Hr. unfold ch_has_state.
+  assert (H : N.ldiff CH_CLOSED HINT_BIT = 9223372036854775807) by (vm_compute; reflexivity).
+  rewrite H. unfold rid_ok, RID_MAX in Hr. apply N.eqb_neq. lia.
+Qed.
+
+Lemma has_state_plain : forall r e, rid_ok r -> ch_has_state r e = N.eqb e r.
+Proof. intros r e Hr. unfold ch_has_state. rewrite ldiff_hint_small by (unfold rid_ok in Hr; lia). reflexivity. Qed.
+
+Lemma has_state_hinted : forall r e, rid_ok r -> ch_has_state (N.lor r HINT_BIT) e = N.eqb e r.
+Proof.
+  intros r e Hr. unfold ch_has_state.
+  rewrite lor_hint_small by (unfold rid_ok in Hr; lia).
+  rewrite ldiff_hint_hinted by (unfold rid_ok in Hr; lia). reflexivity.
+Qed.
+
+(* a well-formed channel word: CLOSED, or a request id with or without the disconnect hint *)
+Inductive chw : N -> Prop :=
+| chw_closed : chw CH_CLOSED
+| chw_rid : forall r, rid_ok r -> chw r
+| chw_hint : forall r, rid_ok r -> chw (N.lor r HINT_BIT).
+
+Lemma rid_ne_closed : forall r, rid_ok r -> r <> CH_CLOSED.
+Proof. intros r Hr. unfold rid_ok, RID_MAX in Hr. unfold CH_CLOSED, TWO64. lia. Qed.
+Lemma hint_ne_closed : forall r, rid_ok r -> N.lor r HINT_BIT <> CH_CLOSED.
+Proof.
+  intros r Hr. rewrite lor_hint_small by (unfold rid_ok in Hr; lia).
+  unfold rid_ok, RID_MAX in Hr. unfold CH_CLOSED, TWO64, HINT_BIT. lia.
+Qed.
+Lemma hint_ne_rid : forall r r', rid_ok r -> rid_ok r' -> N.lor r HINT_BIT <> r'.
+Proof.
+  intros r r' Hr Hr'. rewrite lor_hint_small by (unfold rid_ok in Hr; lia).
+  unfold rid_ok, RID_MAX in *. unfold HINT_BIT. lia.
+Qed.
+Lemma hint_inj : forall r r', rid_ok r -> rid_ok r' -> N.lor r HINT_BIT = N.lor r' HINT_BIT -> r = r'.
+Proof.
+  intros r r' Hr Hr'. rewrite !lor_hint_small by (unfold rid_ok in *; lia). lia.
+Qed.
+
+(* close_channel(expected) leaves a word that does not have state `expected` any more *)
+Lemma close_not_state : forall w r, chw w -> rid_ok r -> ch_has_state (ch_close w r) r = false.
+Proof.
+  intros w r Hw Hr. unfold ch_close, cas.
+  destruct (N.eqb_spec w r) as [-> | Hne].
+  - cbn [fst snd]. apply closed_not_rid; exact Hr.
+  - destruct (N.eqb_spec w (N.lor r HINT_BIT)) as [-> | Hne2].
+    + try rewrite N.eqb_refl. cbn [fst]. apply closed_not_rid; exact Hr.
+    + destruct Hw as [| r0 Hr0 | r0 Hr0].
+      * apply closed_not_rid; exact Hr.
+      * rewrite has_state_plain by exact Hr0. apply N.eqb_neq. congruence.
+      * rewrite has_state_hinted by exact Hr0. apply N.eqb_neq. intro; subst. apply Hne2; reflexivity.
+Qed.
+
+(* close_channel(expected) does not touch a channel that was re-opened for another request *)
+Lemma close_other : forall w r r', chw w -> rid_ok r -> rid_ok r' -> r <> r' ->
+  ch_has_state w r' = true -> ch_close w r = w.
+Proof.
+  intros w r r' Hw Hr Hr' Hne Hs. unfold ch_close, cas.
+  destruct Hw as [| r0 Hr0 | r0 Hr0].
+  - rewrite closed_not_rid in Hs by exact Hr'. discriminate.
+  - rewrite has_state_plain in Hs by exact Hr0. apply N.eqb_eq in Hs. subst r0.
+    destruct (N.eqb_spec r' r); [congruence|].
+    destruct (N.eqb_spec r' (N.lor r HINT_BIT)) as [E|]; [|reflexivity].
+    exfalso. symmetry in E. revert E. apply hint_ne_rid; assumption.
+  - rewrite has_state_hinted in Hs by exact Hr0. apply N.eqb_eq in Hs. subst r0.
+    destruct (N.eqb_spec (N.lor r' HINT_BIT) r) as [E|].
+    { exfalso. revert E. apply hint_ne_rid; assumption. }
+    destruct (N.eqb_spec (N.lor r' HINT_BIT) (N.lor r HINT_BIT)) as [E|]; [|reflexivity].
+    exfalso. apply Hne. symmetry. apply hint_inj; assumption.
+Qed.
+
+Lemma chw_close : forall w r, chw w -> chw (ch_close w r).
+Proof.
+  intros w r Hw. unfold ch_close, cas.
+  destruct (N.eqb w r); cbn [fst snd]; [constructor|].
+  destruct (N.eqb w (N.lor r HINT_BIT)); [|exact Hw].
+  cbn [fst]. constructor.
+Qed.
+Lemma chw_set_state : forall w r, chw w -> rid_ok r -> chw (fst (ch_set_state w r)).
+Proof.
+  intros w r Hw Hr. unfold ch_set_state, cas. destruct (N.eqb w CH_CLOSED); cbn [fst]; [constructor; exact Hr|exact Hw].
+Qed.
+Lemma chw_set_hint : forall w r, chw w -> rid_ok r -> chw (ch_set_hint w r).
+Proof.
+  intros w r Hw Hr. unfold ch_set_hint, cas. destruct (N.eqb w r); cbn [fst]; [apply chw_hint; exact Hr|exact Hw].
+Qed.
+(* set_channel_state only opens a CLOSED channel: a channel open for r stays open for r *)
+Lemma set_state_keeps : forall w r r', chw w -> rid_ok r -> ch_has_state w r = true -> fst (ch_set_state w r') = w.
+Proof.
+  intros w r r' Hw Hr Hs. unfold ch_set_state, cas.
+  destruct (N.eqb_spec w CH_CLOSED) as [-> |]; [|reflexivity].
+  rewrite closed_not_rid in Hs by exact Hr. discriminate.
+Qed.
+Lemma set_state_opens : forall r, rid_ok r -> ch_has_state (fst (ch_set_state CH_CLOSED r)) r = true.
+Proof. intros r Hr. unfold ch_set_state, cas. rewrite N.eqb_refl. cbn [fst]. rewrite has_state_plain by exact Hr. apply N.eqb_refl. Qed.
+
+(* ---------------------------------------------------------------------------------------- *)
+(* queues: try_send keeps the bound                                                          *)
+Lemma try_send_bound : forall A ovf cap (q : list A) m q' ev,
+  1 <= cap -> lenN q <= cap -> try_send ovf cap q m = Some (q', ev) -> lenN q' <= cap.
+Proof.
+  intros A ovf cap q m q' ev Hc Hq. unfold try_send.
+  destruct (negb ovf && N.leb cap (lenN q)); [discriminate|].
+  destruct (N.leb_spec cap (lenN q)) as [Hfull | Hfree].
+  - destruct q as [|old t]; intro E; inversion E; subst; unfold lenN in *; cbn [length] in *.
+    + lia.
+    + rewrite app_length. cbn [length]. lia.
+  - intro E; inversion E; subst. unfold lenN in *. rewrite app_length. cbn [length]. lia.
+Qed.
+Lemma try_send_full_no_overflow : forall A cap (q : list A) m, cap <= lenN q -> try_send false cap q m = None.
+Proof. intros A cap q m H. unfold try_send. cbn [negb andb]. destruct (N.leb_spec cap (lenN q)); [reflexivity|lia]. Qed.
+Lemma try_send_evicts_oldest : forall A cap (q : list A) m q' old,
+  try_send true cap q m = Some (q', Some old) -> exists t, q = old :: t /\ q' = t ++ [m].
+Proof.
+  intros A cap q m q' old. unfold try_send. cbn [negb andb].
+  destruct (N.leb cap (lenN q)); [|intro E; inversion E].
+  destruct q as [|o t]; intro E; inversion E; subst. exists t; split; reflexivity.
+Qed.
+
+(* ---------------------------------------------------------------------------------------- *)
+(* reference counts                                                                          *)
+Lemma rc_dec_inc_fresh : forall t id, ~ In id (map fst t) -> rc_dec (rc_inc t id) id = t.
+Proof.
+  induction t as [|[i n] r IH]; intros id Hf; cbn [rc_inc rc_dec map fst In] in *.
+  - rewrite N.eqb_refl. reflexivity.
+  - destruct (N.eqb_spec i id) as [E|E]; [exfalso; apply Hf; left; exact E|].
+    cbn [rc_dec]. destruct (N.eqb_spec i id); [congruence|]. f_equal. apply IH. tauto.
+Qed.
+
+(* ---------------------------------------------------------------------------------------- *)
+(* PendingResponse::receive: the request-id filter                                           *)
+Lemma pend_receive_filter : forall fuel g s p ord s' sv m,
+  pend_receive fuel g s p ord = (s', PRSome sv m) -> p_rid m = q_rid (pn_msg p).
+Proof.
+  induction fuel as [|f IH]; intros g s p ord s' sv m H; cbn [pend_receive] in H; [discriminate|].
+  destruct (client_rcv1 g (client_sync g s (pn_cl p)) (pn_cl p) (q_ch (pn_msg p)) ord) as [s1 r] eqn:E.
+  destruct r as [| | sv1 m1]; try discriminate.
+  destruct (N.eqb_spec (p_rid m1) (q_rid (pn_msg p))) as [Heq | Hne].
+  - inversion H; subst. exact Heq.
+  - eapply IH; exact H.
+Qed.
+
+(* Receiver::release_offset puts the response into the completion queue of its channel and
+   takes it out of the borrowed set -- the sender reclaims it at its next allocate / deliver *)
+Lemma response_release_spec : forall s cl sv ch m k,
+  get_conn s cl sv = Some k -> view_on (k_cv k) = true ->
+  exists k', get_conn (response_release s cl sv ch m) cl sv = Some k' /\
+             c_comp (k_chan k' ch) = (if N.ltb ch (lenN (k_ch k)) then c_comp (k_chan k ch) ++ [m] else c_comp (k_chan k' ch)) /\
+             (N.ltb ch (lenN (k_ch k)) = true -> ~ In (p_id m) (map p_id (c_bor (k_chan k' ch)))).
+Proof.
+  intros s cl sv ch m k Hg Hv.
+  unfold response_release, upd_conn, get_conn in *. cbn [s_conns st_conns].
+  induction (s_conns s) as [|k0 l IH]; cbn [find map] in *; [discriminate|].
+  destruct (is_key k0 cl sv) eqn:Ek.
+  - inversion Hg; subst k0. rewrite Hv.
+    set (k' := k_set_chan k ch _).
+    assert (Ek' : is_key k' cl sv = true) by exact Ek.
+    rewrite Ek'. exists k'. split; [reflexivity|].
+    unfold k', k_set_chan, k_chan, k_with_ch, nthN, updN, lenN. cbn [k_ch mk_conn].
+    destruct (N.ltb_spec ch (N.of_nat (length (k_ch k)))) as [Hlt | Hge].
+    + assert (Hn : (N.to_nat ch < length (k_ch k))%nat) by lia.
+      assert (Hnth : forall (l : list chan) n x d, (n < length l)%nat -> nth n (upd l n x) d = x).
+      { induction l0 as [|h t IHl]; intros [|n] x d Hl; cbn [upd nth length] in *; try lia; [reflexivity|apply IHl; lia]. }
+      rewrite Hnth by exact Hn. cbn [c_comp c_bor mk_chan]. split; [reflexivity|].
+      intros _ Hin. apply in_map_iff in Hin. destruct Hin as [y [Hy Hin]]. apply filter_In in Hin.
+      destruct Hin as [_ Hf]. rewrite Hy in Hf. rewrite N.eqb_refl in Hf. discriminate.
+    + split; [reflexivity|discriminate].
+  - destruct (IH Hg) as [k' [H1 H2]]. rewrite Ek. exists k'. split; [exact H1|exact H2].
+Qed.
+
+(* a rejected send (ExceedsMaxActiveRequests) gives everything back: counters and reference
+   counts as before the loan; the channel id returns to the END of the queue *)
+Lemma client_send_rejected : forall g s m p, client_send g s m = (p, inl EMaxActive) ->
+  get_client s (q_cl m) <> None -> p = request_release s m false.
+Proof.
+  intros g s m p H Hc. unfold client_send in H.
+  destruct (get_client s (q_cl m)) as [c|]; [|congruence].
+  destruct (N.leb (MA g) (cl_active c)).
+  - inversion H; reflexivity.
+  - exfalso. unfold fresh in H. cbv zeta in H. cbn [fst snd] in H.
+    match type of H with context [fold_left ?f ?l ?a] => destruct (fold_left f l a) end.
+    discriminate.
+Qed.
